@@ -157,6 +157,9 @@ func (a *effAnalysis) locOf(x *effCtx, v ssa.Value) loc {
 		}
 	case *ssa.Global:
 		l = locGlobal
+		if y.Pkg != nil && y.Pkg.Pkg.Path() == "io" && y.Name() == "Discard" {
+			l = locFresh // a stateless sink, not shared mutable state
+		}
 	case *ssa.Const, *ssa.Function, *ssa.Builtin:
 		l = locFresh
 	case *ssa.Alloc, *ssa.MakeSlice, *ssa.MakeMap, *ssa.MakeChan:
